@@ -3,6 +3,7 @@ from __future__ import annotations
 
 from kit.engine import Cond
 from kit import oracle as O
+from kit import logic as L
 from kit.state import mk, raw, call, classes, is_stream, is_mutable, same
 from harness.common import CLS, _obj, _unchanged, _operand, _operand_unchanged
 
@@ -141,6 +142,35 @@ def h_hash(n):
     return h
 
 
+def h_eq_route(cname, route, n):
+    """an object built through a file / window route equals (and hashes like) the in-memory object with the same bits"""
+    def h(K):
+        import bitstring
+        from harness.c08 import build
+        from kit import files as F
+        cls = classes()[cname]
+        try:
+            X, e = build(K, cls, route, n)
+            Y = mk(K, bitstring.Bits, e)
+            other = K.bits('other', n)
+            Z = mk(K, bitstring.Bits, other)
+            r = call(lambda: (X == Y, Y == X, X != Y, X == Z, Z == X))
+            if not r.ok:
+                return K.fail('== raised', exc=r.excname)
+            a, b, c, d, f = r.value
+            exp = same(e, other)
+            if not K.check(L.And(a, b, L.Not(c), L.Iff(d, exp), L.Iff(f, exp)), 'an object built through this route does not compare like its bits', route=route):
+                return False
+            if not is_mutable(cls):
+                hx, hy = call(X.__hash__), call(mk(K, cls, e).__hash__)
+                return K.check(hx.ok and hy.ok and _hash_eq(hx.value, hy.value), 'equal objects built by different routes hash differently', route=route)
+            return True
+        finally:
+            if not K.symbolic:
+                F.cleanup()
+    return h
+
+
 def h_unhashable(cname):
     def h(K):
         cls, x, pos, a = _obj(K, cname, 3)
@@ -196,6 +226,15 @@ def conditions(tier):
             conds.append(Cond(f'C13.pos-independent[{l},n={n}]', h_pos_independent(l, n), f'all {n}-bit contents x all pairs of stream positions', D_EQ + D_HASH, {'n': n}, timeout=T, setup=_install_hash_probe))
     for n in ([0, 1, 8, 9, 1999, 2000, 2001, 2500] if q else [0, 1, 7, 8, 9, 64, 1599, 1600, 1601, 1999, 2000, 2001, 2500, 3601]):
         conds.append(Cond(f'C13.hash[n={n}]', h_hash(n), f'all pairs of {n}-bit contents, all stream positions', D_HASH, {'n': n}, timeout=300, setup=_install_hash_probe))
+    def _setup_files_and_probe():
+        from kit import files as F
+        F.install_fakes()
+        _install_hash_probe()
+    for l in (['Bits', 'BitArray'] if q else CLS):
+        for route in (['file-len', 'file-offset-len', 'bytes-window'] if q else ['file-len', 'file-len-unaligned', 'file-offset', 'file-offset-len', 'handle-len', 'bytes-window', 'bitarray-window', 'slice-of-larger']):
+            for n in ([5] if q else [0, 5, 8, 13]):
+                conds.append(Cond(f'C13.eq-file[{l},{route},n={n}]', h_eq_route(l, route, n), f'all raw contents behind route {route} (logical length {n}) x all {n}-bit comparands', D_EQ + D_HASH,
+                                  {'n': n, 'route': route}, timeout=T, setup=_setup_files_and_probe))
     for l in ('BitArray', 'BitStream'):
         conds.append(Cond(f'C13.unhashable[{l}]', h_unhashable(l), 'all 3-bit contents', ['bitstring.bitarray_:BitArray.__copy__'], timeout=T))
     return conds
